@@ -140,7 +140,7 @@ prop('C02',
      modules=['WitnessVerif.Props.C02'],
      scenarios=lambda tier: [sc('notemut')] + ([sc('hist', n=40)] * 2 if tier == 'quick' else [sc('notemut', n=12)] + [sc('hist', n=400)] * 6),
      diverge={'U': {'accept', 'post', 'oracle'}},
-     nontrivial=lambda u: u.get('class', '').startswith('mut.') or u.get('class', '').startswith('corrupt') or u.get('class') in ('crossLog', 'unknownLog', 'shape'),
+     nontrivial=lambda u: u.get('class', '').startswith('mut.') or u.get('class', '').startswith('corrupt') or u.get('class', '').startswith('replay') or u.get('class') in ('crossLog', 'unknownLog', 'shape'),
      rule='mutation streams over one valid checkpoint per configuration (every k-th single-bit flip, every k-th truncation, line deletions/duplications/swaps/insertions of CR, TAB, NBSP, U+2028, 0xFF, 0x01, signature-block edits, cross-log and cross-origin replays with shared keys, unknown IDs) on a witness with 3 logs (two sharing a key), with and without stored state; monitor: accepted => the submitted bytes authenticate under the configured verifier and origin (verifier queries recorded from the real verifier)',
      assumptions=['unforgeability of Ed25519 is outside the statement: theorems are relative to the verification predicate'])
 
